@@ -25,7 +25,7 @@ def run(R):
     if R.want("C07.R1"):
         r1(R, tus, f)
     if R.want("C07.R2"):
-        r2(R, f)
+        r2(R, cfront.inlined_func(tus, "score_and_assign", "src/closest.c"))   # helpers the per-peak error was moved into read in place
     if R.want("C07.R3"):
         r3(R)
     if R.want("C07.R4"):
